@@ -7,7 +7,7 @@ CONSTANTS
   PrintTypes = {"b", "t", "f"}
   IntFormats <- IntFormatsQ
   FltFormats <- FltFormatsQ
-  Lefts = {0, 2, 3, 5, 12}
+  Lefts = {0, 2, 3, 5, 12} FltLefts = {0, 3, 5, 12}
   FmtAlphabet = {32, 43, 102, 120, 48, 49, 50, 57, 46, 45}
   FmtLen = 3
   DestAlphabet = {32, 58, 48, 49, 50, 51, 45, 120}
